@@ -3,7 +3,7 @@
   Model: JRV.Model.Pool.  Theorems over every reachable state (all interleavings, programs, timings).
 
     safety     C09_at_most_once, C09_exec_count_phase, C09_single_holder, C09_queue_nodup
-    future     C09_future_faithful, C09_result_faithful
+    future     C09_future_faithful, C09_result_faithful, C09_done_faithful, C09_done_stable, C09_done_then_result
     stop       C09_none_after_stop            (configuration flag singleCtl: one controlling thread)
     order      C09_fifo_single, C09_single_worker   (max_threads = 1)
     liveness   C09_queued_has_server, C09_eventually_once, C09_eventually_begins   (singleCtl, max_threads ≥ 1,
@@ -141,6 +141,81 @@ example : ∃ s s', run (init { max := 1, min := 1, qbound := 0 } 1) (startRun +
     s.workers.map (·.pc) = [.futSet] ∧
     s'.tasks.map (fun t => (t.phase, t.futDone, t.futVal, t.outcome)) = [(.finished, true, some .exc, some .exc)] := by
   refine ⟨_, _, rfl, rfl, ?_, ?_, ?_⟩ <;> rfl
+
+/-! ### observing a future: `done()`, and `result()` once `done()` has answered True -/
+
+/-- **`FutureResult.done()` never blocks and answers exactly whether the future of its task is done**: the `fut.is_set`
+    step of `done()` is always enabled, changes no task, and returns `True` only for a finished task whose future holds
+    that task's own outcome, `False` only while `fut.set` has not been executed for it. -/
+theorem C09_done_faithful (cfg : Config) (n : Nat) (s : State) (hr : Reach (init cfg n) s)
+    (i : Nat) (c : Client) (hc : s.clients[i]? = some c) (t : Nat) (hpc : c.pc = .futPoll t) :
+    ∃ s' b, step? s ⟨.client i, .futIsSet, false⟩ = some s' ∧ s'.tasks = s.tasks ∧
+      s'.clients[i]? = some { pc := .idle, ret := .bool b } ∧
+      (b = true → ∃ tk o, s.tasks[t]? = some tk ∧ tk.futDone = true ∧ tk.phase = .finished ∧ tk.outcome = some o ∧
+        tk.futVal = some o) ∧
+      (b = false → ∀ tk, s.tasks[t]? = some tk → tk.futDone = false) := by
+  have hF := FutInv_reach hr
+  have hlt : i < s.clients.length := (List.getElem?_eq_some_iff.mp hc).1
+  refine ⟨setClient s i { pc := .idle, ret := .bool (futReady s t) }, futReady s t, ?_, rfl, ?_, ?_, ?_⟩
+  · simp [step?, hc, clientStep, hpc]
+  · simp [setClient, hlt]
+  · intro hb
+    unfold futReady at hb
+    cases htk : s.tasks[t]? with
+    | none => simp [htk] at hb
+    | some tk =>
+      simp [htk] at hb
+      obtain ⟨h1, h2⟩ := hF.done t tk htk hb
+      have h3 := (hF.fin t tk htk).mp h1
+      cases ho : tk.outcome with
+      | none => exact absurd ho h3
+      | some o => exact ⟨tk, o, rfl, hb, h1, ho, by rw [h2, ho]⟩
+  · intro hb tk htk
+    unfold futReady at hb
+    simpa [htk] using hb
+
+/-- **A done future stays done and keeps its outcome**, whatever any thread does afterwards (further tasks, `stop()`,
+    `clear()`, restarts): along every run from a reachable state the task stays `finished`, its future stays done and
+    shows the same value. -/
+theorem C09_done_stable (cfg : Config) (n : Nat) (s s' : State) (hr : Reach (init cfg n) s) (hr' : Reach s s')
+    (t : Nat) (tk : Task) (ht : s.tasks[t]? = some tk) (hd : tk.futDone = true) :
+    ∃ tk', s'.tasks[t]? = some tk' ∧ tk'.futDone = true ∧ tk'.futVal = tk.futVal ∧ tk'.outcome = tk.outcome ∧
+      tk'.phase = .finished :=
+  done_stable_reach hr hr' ht hd
+
+/-- **Once `done()` has answered True, `result()` answers at once with the task's own outcome** — at any later moment,
+    for any client, whatever happened in between: the returning step of `result(t)` is enabled (the call does not
+    block, so a time-out has nothing to wait for) and the caller gets `ok` if the body returned, `exc` if it raised. -/
+theorem C09_done_then_result (cfg : Config) (n : Nat) (s s1 s2 : State) (hr : Reach (init cfg n) s)
+    (i : Nat) (c : Client) (hc : s.clients[i]? = some c) (t : Nat) (hpc : c.pc = .futPoll t)
+    (hdone : step? s ⟨.client i, .futIsSet, false⟩ = some s1)
+    (htrue : s1.clients[i]? = some { pc := .idle, ret := .bool true })
+    (hr2 : Reach s1 s2) (j : Nat) (c' : Client) (hc' : s2.clients[j]? = some c') (hpc' : c'.pc = .futWait t) :
+    ∃ tk o s3, s.tasks[t]? = some tk ∧ tk.outcome = some o ∧
+      step? s2 ⟨.client j, .futWait, false⟩ = some s3 ∧ s3.tasks = s2.tasks ∧
+      s3.clients[j]? = some { pc := .idle, ret := match o with | .ok => .ok | .exc => .exc } := by
+  obtain ⟨s1', b, hs1, htasks, hret, htrue', _⟩ := C09_done_faithful cfg n s hr i c hc t hpc
+  rw [hdone] at hs1; cases hs1
+  rw [hret] at htrue
+  have hb : b = true := by simpa using htrue
+  obtain ⟨tk, o, htk, hfd, hph, hout, hval⟩ := htrue' hb
+  have hr1 : Reach (init cfg n) s1 := Reach.step _ hr hdone
+  obtain ⟨tk2, htk2, hd2, hv2, ho2, hp2⟩ := C09_done_stable cfg n s1 s2 hr1 hr2 t tk (by rw [htasks]; exact htk) hfd
+  have hlt : j < s2.clients.length := (List.getElem?_eq_some_iff.mp hc').1
+  refine ⟨tk, o, setClient s2 j { pc := .idle, ret := futRet s2 t }, htk, hout, ?_, rfl, ?_⟩
+  · simp [step?, hc', clientStep, hpc', futReady, htk2, hd2]
+  · simp [setClient, hlt, futRet, htk2, retOfFuture, hv2, hval]
+    cases o <;> rfl
+
+/-- Non-vacuity: a raising task; `done()` before `fut.set` answers False, after it True, and `result()` then returns
+    `exc` - while the worker goes on with its accounting. -/
+example : ∃ s s1 s2 s3, run (init { max := 1, min := 1, qbound := 0 } 1)
+      (startRun ++ enqRun ++ takeBeginRun ++ [w0 (.taskEnd .exc), c0 (.callDone 0), c0 .futIsSet, w0 .futSet, c0 (.callDone 0)]) = some s ∧
+    s.clients.map (fun c => (c.pc, c.ret)) = [(.futPoll 0, .none)] ∧
+    run s [c0 .futIsSet] = some s1 ∧ s1.clients.map (fun c => (c.pc, c.ret)) = [(.idle, .bool true)] ∧
+    run s1 ([w0 .queueTaskDone, w0 .lockAcquire, w0 .lockRelease, c0 (.callWait 0)]) = some s2 ∧
+    run s2 [c0 .futWait] = some s3 ∧ s3.clients.map (fun c => (c.pc, c.ret)) = [(.idle, .exc)] := by
+  refine ⟨_, _, _, _, rfl, ?_, rfl, ?_, rfl, rfl, ?_⟩ <;> rfl
 
 /-! ### nothing runs after `stop()` has returned -/
 
@@ -416,7 +491,7 @@ theorem C09_eventually_begins (cfg : Config) (n : Nat) (s : State) (hctl : cfg.s
     environment's; every other operation is one the scheduler owes under fairness. -/
 def owedOp (op : Op) : Bool :=
   match op with
-  | .callStart | .callStop | .callClear | .callJoin | .callJoinT | .callEnqueue | .callWait _ | .taskEnd _ => false
+  | .callStart | .callStop | .callClear | .callJoin | .callJoinT | .callEnqueue | .callWait _ | .callDone _ | .taskEnd _ => false
   | _ => true
 
 /-- **Statement not proved — kept at full strength.**  On every infinite run of the pool (single controlling thread,
